@@ -164,7 +164,7 @@ func (t *tr) varName(obj types.Object) string {
 
 func (t *tr) fresh(base string) string {
 	t.knum++
-	return fmt.Sprintf("%s%d__", base, t.knum)
+	return fmt.Sprintf("%s%d_", base, t.knum)
 }
 
 // ---------------------------------------------------------------------------------------------
@@ -377,6 +377,7 @@ func (t *tr) emitFunc(b *strings.Builder, key string) {
 	t.names = map[types.Object]string{}
 	t.used = map[string]bool{}
 	t.knum = 0
+	t.labels = map[string]string{}
 	t.cur = key
 	c := &fnCtx{key: key, fd: fd, fuel: t.fuelFns[key]}
 	var params []string
@@ -579,7 +580,64 @@ type loopCtx struct {
 
 var loops []loopCtx
 
+// declaredAtTop lists the variables declared directly (not in nested blocks) by the statements.
+func (t *tr) declaredAtTop(stmts []ast.Stmt) []types.Object {
+	var out []types.Object
+	for _, s := range stmts {
+		switch x := s.(type) {
+		case *ast.AssignStmt:
+			if x.Tok == token.DEFINE {
+				for _, l := range x.Lhs {
+					if id, ok := l.(*ast.Ident); ok && id.Name != "_" {
+						if obj := t.info.Defs[id]; obj != nil {
+							out = append(out, obj)
+						}
+					}
+				}
+			}
+		case *ast.DeclStmt:
+			if gd, ok := x.Decl.(*ast.GenDecl); ok && gd.Tok == token.VAR {
+				for _, sp := range gd.Specs {
+					for _, n := range sp.(*ast.ValueSpec).Names {
+						if obj := t.info.Defs[n]; obj != nil && n.Name != "_" {
+							out = append(out, obj)
+						}
+					}
+				}
+			}
+		}
+	}
+	return out
+}
+
 func (t *tr) block(c *fnCtx, stmts []ast.Stmt, k string, depth int) string {
+	// a label later in this block that is the target of a goto: bind the code from the label on as a
+	// local continuation first, then translate the statements before it with that continuation
+	for i, s := range stmts {
+		ls, ok := s.(*ast.LabeledStmt)
+		if !ok || t.labels[ls.Label.Name] != "" {
+			continue
+		}
+		if i == 0 {
+			t.fail(ls, "label %s at the start of a block", ls.Label.Name)
+		}
+		tail := t.block(c, append([]ast.Stmt{ls.Stmt}, stmts[i+1:]...), k, depth+1)
+		seen := map[types.Object]bool{}
+		var vars []types.Object
+		nodes := make([]ast.Node, 0, i)
+		for _, p := range stmts[:i] {
+			nodes = append(nodes, p)
+		}
+		for _, v := range append(t.declaredAtTop(stmts[:i]), t.assignedOuter(nodes...)...) {
+			if !seen[v] {
+				seen[v] = true
+				vars = append(vars, v)
+			}
+		}
+		prefix, call := t.join(c, vars, tail, depth)
+		t.labels[ls.Label.Name] = call
+		return prefix + t.block(c, stmts[:i], call, depth)
+	}
 	if len(stmts) == 0 {
 		if k == "" {
 			panic(unsupported{"control reaches the end of " + c.key + " without a value"})
@@ -700,6 +758,9 @@ func (t *tr) block(c *fnCtx, stmts []ast.Stmt, k string, depth int) string {
 		return t.forStmt(c, x, stmts[1:], k, depth)
 
 	case *ast.BranchStmt:
+		if x.Tok == token.GOTO && x.Label != nil && t.labels[x.Label.Name] != "" {
+			return t.labels[x.Label.Name]
+		}
 		if len(loops) == 0 || x.Label != nil {
 			t.fail(x, "branch statement %v", x.Tok)
 		}
